@@ -74,6 +74,8 @@ class Probe:
         def erd(dyn, t):
             import epydemic.stochasticdynamics as sd
             trs = probe._orig(dyn, t)
+            if probe.orc is not sd.rng:
+                probe.steps = []          # another run (another oracle) on the same experiment: only the last one is observed
             probe.orc = sd.rng
             pos = len(getattr(sd.rng, 'log', []))
             if probe.steps:
@@ -168,6 +170,7 @@ def gen_compart(rnd, i):
     model = STOCH_MODELS[i % len(STOCH_MODELS)]
     c = compart.gen_case(rnd, model=model, dynamics='stochastic')
     c['kind'] = 'compart'
+    c['prerun'] = False
     c['inst'] = [None, 'a', None][(i // len(STOCH_MODELS)) % 3]
     c['seq'] = (i // (3 * len(STOCH_MODELS))) % 2 == 1 or rnd.random() < 0.2
     if rnd.random() < 0.3:
